@@ -17,9 +17,9 @@ import DdoModel.Examples.SopDp
       the model text (`rub-vs-relaxed-dp k`), they are no violation (no solution is lost by pruning on such a bound);
     * `rx`: for a merged-away state `u` of a recorded `mg` event, the merged state `m` THE CODE returned (same depth) and the
       relaxed cost `r` THE CODE returned for an arc of cost `c` into `u`: `c + H(u) ≤ r + H(m)` (`MergeOk`, potential form of
-      `Wf.lean`).  A violation that disappears when the value-to-go of `m` is taken with `can_schedule` weakened to "no
-      predecessor MUST still be scheduled" is named `sop-merge-can-schedule` (the open defect D12: `can_schedule` demands
-      on a merged state that every predecessor be scheduled in ALL merged states); any other one `sop-merge`;
+      `Wf.lean`), the values-to-go being those of the DP of the repaired code (`canSchedule?`, `trans?`).  Any violation is
+      named `sop-merge` and fails `phi` (finding D12 — `can_schedule` demanded on a merged state that every predecessor be
+      scheduled in ALL merged states — is repaired: `SopDp.canScheduleOld?`, `SopModel.d12_refutes_MergeOkStmt`);
     * `pv`: value of the walk prefix + value-to-go of the state reached = minus the least cost, by the independent
       specification `Sop.lean`, among the sequences that extend the prefix (`-∞` = none): the DP model is exact.
     Instances outside the domain of the format (unmarked ends, negative distances, a non-zero diagonal, no job) are
@@ -87,7 +87,7 @@ def checkEvent (T : Tab) (e : List String) : Option (Bool × String) :=
     pure (join vals == m, m)
   | ["tr" :: s, [x, v], s2, [c]] => do
     let s ← st? s; let x ← nat? x; let v ← int? v
-    let m2 := showOS (trans? s ⟨x, v⟩)
+    let m2 := showOS (trans? T s ⟨x, v⟩)
     -- the harness hands the source state to `transition_cost` when `transition` panicked; the destination is not read
     let k := showOI (cost? T s ⟨x, v⟩)
     pure (join s2 == m2 && c == k, s!"{m2} : {k}")
@@ -145,11 +145,7 @@ def phiEvent (T : Tab) (seqs : List (List Nat)) (merges : List (List St × St)) 
       let hu := bestRem T dst
       let hm := bestRem T m
       if mergeOkWith hu hm c r then none
-      else
-        let hl := bestRemLax T m
-        if mergeOkWith hu hl c r then
-          some ("sop-merge-can-schedule", s!"`{showSt dst}` (value-to-go {showE hu}, arc cost {c}) merged into `{showSt m}` (value-to-go {showE hm}, relaxed arc cost {r}; {showE hl} if can_schedule only looked at must_schedule): can_schedule demands on the merged state that every predecessor be scheduled in ALL merged states, completions of the merged-away state are lost")
-        else some ("sop-merge", s!"`{showSt dst}` (value-to-go {showE hu}, arc cost {c}) merged into `{showSt m}` (value-to-go {showE hm}, relaxed arc cost {r}): merge/relax do not over-approximate")
+      else some ("sop-merge", s!"`{showSt dst}` (value-to-go {showE hu}, arc cost {c}) merged into `{showSt m}` (value-to-go {showE hm}, relaxed arc cost {r}): merge/relax do not over-approximate")
     | _, _, _, _ => none
   | ["pv" :: s, [v], decs] =>
     match st? s, int? v, ints? decs with
@@ -200,14 +196,11 @@ def sopCase (toks : List String) (i : List String) : Option Res := do
           else viol := viol ++ [v]
       let big := merges.filter (fun (sts, _) => sts.length ≥ 3)
       let phi := !inDom || viol.isEmpty
-      -- the violations of the class of D12 come last: the note is led by any other failing violation; the observations
-      -- (`sop-rub-optional-edge`) do not fail `phi` and lead the note (`O:`) only when no clause fails
-      let known := viol.filter (·.1 == "sop-merge-can-schedule")
-      let other := viol.filter (·.1 != "sop-merge-can-schedule")
-      let kinds := ((other ++ known).map (·.1)).eraseDups
+      -- the observations (`sop-rub-optional-edge`) do not fail `phi` and lead the note (`O:`) only when no clause fails
+      let kinds := (viol.map (·.1)).eraseDups
       pure { agree := bad.isEmpty, phi := phi,
-             model := s!"events {evs.length} merges {merges.length} of3+ {big.length}{if inDom then "" else " out-of-domain"}{if viol.isEmpty then "" else s!" violations {viol.length} ({join kinds}) can-schedule {known.length}"}{if obs.isEmpty then "" else s!" sop-rub-optional-edge {obs.length}"}{if soft.isEmpty then "" else s!" rub-vs-relaxed-dp {soft.length}"}",
-             note := (match (if phi then none else (other ++ known).head?) with
+             model := s!"events {evs.length} merges {merges.length} of3+ {big.length}{if inDom then "" else " out-of-domain"}{if viol.isEmpty then "" else s!" violations {viol.length} ({join kinds})"}{if obs.isEmpty then "" else s!" sop-rub-optional-edge {obs.length}"}{if soft.isEmpty then "" else s!" rub-vs-relaxed-dp {soft.length}"}",
+             note := (match (if phi then none else viol.head?) with
                       | some v => s!"F:C16 [C16:{v.1}: {v.2}]"
                       | none => (match (if inDom then obs.head? else none) with
                                  | some v => s!"O:C16 [C16:{v.1}: {v.2}]"
